@@ -1,19 +1,19 @@
 CONSTANTS
  Oids = {"o1","o2"}
- Paths = {"p1","p2"}
+ Paths = {"p1"}
  Branches = {"main","dev"}
- Ages = {0, 20}
- MaxCommits = 3
- MaxSteps = 6
+ Ages = {0}
+ MaxCommits = 5
+ MaxSteps = 7
  Emit = FALSE
  Skew = FALSE
  Modes = {"git-push"}
  SmudgedWT = FALSE
  RecentDays = 10
  EmitSel = 0
- Thin = TRUE
- PruneFlags = {"none","dry-run","recent","force","verify-remote"}
-SPECIFICATION PSpec
+ Thin = FALSE
+ PruneFlags = {"none","force","verify-remote"}
+SPECIFICATION PSpecM
 VIEW PView
 PROPERTY NeverPrunesNeeded
 ACTION_CONSTRAINT EmitPrune
